@@ -20,10 +20,19 @@ open C14_model
 
 let rec nat_of_int n = if n <= 0 then O else S (nat_of_int (n - 1))
 let rec int_of_nat = function O -> 0 | S n -> 1 + int_of_nat n
-let rec pos_of_int n = if n = 1 then XH else if n land 1 = 0 then XO (pos_of_int (n lsr 1)) else XI (pos_of_int (n lsr 1))
-let z_of_int n = if n = 0 then Z0 else if n > 0 then Zpos (pos_of_int n) else Zneg (pos_of_int (-n))
-let rec int_of_pos = function XH -> 1 | XO p -> 2 * int_of_pos p | XI p -> 2 * int_of_pos p + 1
-let int_of_z = function Z0 -> 0 | Zpos p -> int_of_pos p | Zneg p -> - (int_of_pos p)
+let rec pos_of_i64 (n : int64) : positive =
+  if n = 1L then XH
+  else if Int64.logand n 1L = 0L then XO (pos_of_i64 (Int64.shift_right_logical n 1))
+  else XI (pos_of_i64 (Int64.shift_right_logical n 1))
+(* Int64.min_int: its negation is itself; shift_right_logical treats it as 2^63 *)
+let z_of_i64 (n : int64) : z =
+  if n = 0L then Z0 else if n > 0L then Zpos (pos_of_i64 n) else Zneg (pos_of_i64 (Int64.neg n))
+let z_of_int n = z_of_i64 (Int64.of_int n)
+let rec i64_of_pos = function
+  | XH -> 1L | XO p -> Int64.mul 2L (i64_of_pos p) | XI p -> Int64.add (Int64.mul 2L (i64_of_pos p)) 1L
+let i64_of_z = function Z0 -> 0L | Zpos p -> i64_of_pos p | Zneg p -> Int64.neg (i64_of_pos p)
+let int_of_z z = Int64.to_int (i64_of_z z)
+let zs z = Int64.to_string (i64_of_z z)
 let explode s = List.init (String.length s) (String.get s)
 let implode l = let b = Buffer.create 16 in List.iter (Buffer.add_char b) l; Buffer.contents b
 
@@ -53,8 +62,9 @@ let parse_sx (s : string) : sx =
   one ()
 
 let atom_int = function A a -> int_of_string a | _ -> failwith "int expected"
+let atom_z = function A a -> z_of_i64 (Int64.of_string a) | _ -> failwith "int expected"
 let rec expr_of = function
-  | L [A "c"; z] -> EConst (z_of_int (atom_int z))
+  | L [A "c"; z] -> EConst (atom_z z)
   | L [A "v"; x] -> EVar (nat_of_int (atom_int x))
   | L [A "+"; a; b] -> EAdd (expr_of a, expr_of b)
   | L [A "-"; a; b] -> ESub (expr_of a, expr_of b)
@@ -143,14 +153,14 @@ let run_case (sx : sx) =
 
 (* ---- await data path *)
 let tv_str = function
-  | TVInt z -> Printf.sprintf "int %d" (int_of_z z)
+  | TVInt z -> Printf.sprintf "int %s" (zs z)
   | TVString s -> Printf.sprintf "str %s" (implode s)
-  | TVFloat (d, _) -> Printf.sprintf "float %d" (int_of_z d)
+  | TVFloat (d, _) -> Printf.sprintf "float %s" (zs d)
   | TVStruct (v, tn) ->
-      Printf.sprintf "struct type=%s variant=%s value=%d assoc=%d assoc_str=%s members=%s num=%d" (implode tn)
-        (implode v.v_enum_variant) (int_of_z v.v_value) (int_of_z v.v_assoc_int) (implode v.v_assoc_str)
-        (String.concat "," (List.map (fun (n, m) -> implode n ^ "=" ^ (match m with MInt z -> string_of_int (int_of_z z) | MStr s -> implode s)) v.v_members))
-        (int_of_z (as_numeric (TVStruct (v, tn))))
+      Printf.sprintf "struct type=%s variant=%s value=%s assoc=%s assoc_str=%s members=%s num=%s" (implode tn)
+        (implode v.v_enum_variant) (zs v.v_value) (zs v.v_assoc_int) (implode v.v_assoc_str)
+        (String.concat "," (List.map (fun (n, m) -> implode n ^ "=" ^ (match m with MInt z -> zs z | MStr s -> implode s)) v.v_members))
+        (zs (as_numeric (TVStruct (v, tn))))
 
 let run_await (sx : sx) =
   let mkv ty isst isen sname etype variant members hasassoc ai astr =
@@ -158,17 +168,17 @@ let run_await (sx : sx) =
       v_struct_name = explode sname; v_enum_type = explode etype; v_enum_variant = explode variant;
       v_members = members; v_has_assoc = hasassoc; v_assoc_int = ai; v_assoc_str = explode astr } in
   let e = match sx with
-    | L [A "int"; z] -> Some (ret_int (z_of_int (atom_int z)) TInt)
-    | L [A "long"; z] -> Some (ret_int (z_of_int (atom_int z)) TLong)
-    | L [A "bool"; z] -> Some (ret_int (z_of_int (atom_int z)) TBool)
-    | L [A "enum"; z] -> Some (ret_enum (z_of_int (atom_int z)))
+    | L [A "int"; z] -> Some (ret_int (atom_z z) TInt)
+    | L [A "long"; z] -> Some (ret_int (atom_z z) TLong)
+    | L [A "bool"; z] -> Some (ret_int (atom_z z) TBool)
+    | L [A "enum"; z] -> Some (ret_enum (atom_z z))
     | L [A "str"; A s] -> Some (ret_string (explode s))
     | L [A "str"] -> Some (ret_string [])
     | L (A "struct" :: A name :: fields) ->
-        let ms = List.map (function L [A f; z] -> (explode f, MInt (z_of_int (atom_int z))) | _ -> failwith "field") fields in
+        let ms = List.map (function L [A f; z] -> (explode f, MInt (atom_z z)) | _ -> failwith "field") fields in
         Some (ret_struct (mkv TStruct true false name "" "" ms false Z0 ""))
     | L [A "variant"; A etype; A variant; z] ->
-        Some (ret_struct (mkv TEnum true true etype etype variant [] true (z_of_int (atom_int z)) ""))
+        Some (ret_struct (mkv TEnum true true etype etype variant [] true (atom_z z) ""))
     | L [A "none"] -> None
     | _ -> failwith "bad await case" in
   match e with
